@@ -1171,3 +1171,25 @@ for _c in ("for_each", "fold", "all", "any", "find", "position", "find_map", "co
         if _n not in AXIOMS:          # specialised impls of the default methods mean the same
             AXIOMS[_n] = AXIOMS["Iterator::" + _c]
             AXIOM_DOC[_n] = AXIOM_DOC["Iterator::" + _c]
+
+
+_old_chain = AXIOMS.get("Iterator::chain")
+
+
+def _chain_general(call):
+    """chain of any two iterator values the protocol knows (sources, adaptors, sequences of unknown length)"""
+    a, b = call.args[0], call.args[1]
+    if _kind(a) is None or _kind(b) is None:
+        return _old_chain(call) if _old_chain else NotImplemented
+    if _kind(a) == "slice" and _kind(b) == "slice":
+        return _old_chain(call)
+    keys = tuple(call.arg_key(x) for x in call.args)
+    ident = ("term", ("app", call.path or "Iterator::chain") + keys) if TOP not in keys else TOP
+    out = {(): ident, (("f", "@kind"),): ("named", "chain")}
+    for half, t in (("@a", a), ("@b", b)):
+        for pth, l in t.items():
+            out[(("f", half),) + pth] = l
+    return call.ret(out)
+
+
+AXIOMS["Iterator::chain"] = _chain_general
